@@ -271,6 +271,19 @@ def run_db_rows(ck, d, forms, stats):
             "# C13: <mnemonic> <decoration the database grants and whose flag the reference tables carry>\n" + "".join("%s %s\n" % x for x in dec_present))
         open(os.path.join(CORPUS, "db_decorations_absent_x86.txt"), "w").write(
             "# C13: <mnemonic> <decoration the database grants but whose flag the tables lack>: known (AVX10.2 forms of VEX instructions)\n" + "".join("%s %s\n" % x for x in dec_absent))
+    # rows with ONE granted decoration each (theorem C13_db_rows_decorated_representatives_validate): counted; the deciding evaluation is the Coq one
+    drs = [r for r in c13_forms.db_decorated_rows(forms, n2i, d) if c13_forms.row_present(d, (r[0], r[1], r[2], r[3]))]
+    dfmt = lambda r: "%d %d %d %s %d %d %d" % (r[1], r[2], len(r[3]), " ".join("%d %d %d" % o for o in r[3]), r[4], r[5], r[6])
+    vend_dr = read_corpus("db_rows_decorated_x86.txt")
+    now_dr = {dfmt(r): r[0] for r in drs}
+    stats.update({"db_rows_decorated": len(now_dr), "db_rows_decorated_vendored": len(vend_dr), "db_rows_decorated_not_vendored": len([l for l in now_dr if l not in vend_dr]),
+                  "db_rows_decorated_vendored_gone": len([l for l in vend_dr if l not in now_dr])})
+    if os.environ.get("C13_VENDOR") == "1":
+        os.makedirs(CORPUS, exist_ok=True)
+        with open(os.path.join(CORPUS, "db_rows_decorated_x86.txt"), "w") as f:
+            f.write("# C13: database rows with one decoration the form grants: <inst> <mode> <n> {<need> <fixed> <implicit>}*n <options> <extra type> <extra id> \\t <row>,<decoration>\n")
+            for l in sorted(now_dr, key=lambda x: [int(v) for v in x.split()]):
+                f.write("%s\t%s\n" % (l, now_dr[l]))
     # converse, bit level: record operand kinds that no admitted database row names
     kinds = [(names[i], k, q, b) for i, k, q, b in c13_forms.kinds_without_origin(d, [r for r in rows if fmt(r) in present])]
     vend_kinds = set(tuple(l.split()) for l in read_corpus_lines("kinds_without_origin_x86.txt"))
@@ -670,6 +683,11 @@ def run_row_representatives(ck, d, impl, model, stats):
         for m in (0, 1):
             if mode & (1 << m):
                 q.append("RR %d %d" % (k, m))
+    for k, l in enumerate(read_corpus_lines("db_rows_decorated_x86.txt")):
+        mode = int(l.split()[1])
+        for m in (0, 1):
+            if mode & (1 << m):
+                q.append("RD %d %d" % (k, m))
     rm = run_sharded(model, q)
     if isinstance(rm, tuple):
         ck.violation("C13/harness-crash", "model driver failed on the row-representative stream: %s" % (rm,), {"detail": str(rm)}, no_input=True)
@@ -801,7 +819,7 @@ def own_regen(ck, files, timeout=600):
     # what changed, and what depends on it (X86Sigs <- forms shards, X86DbRows, X86Forms; the name files have no dependants)
     changed = set(n for n, t in files.items() if not (os.path.exists(os.path.join(gen, n)) and open(os.path.join(gen, n)).read() == t))
     if "X86Sigs.v" in changed:
-        changed |= set(n for n in files if n.startswith("X86Forms") or n == "X86DbRows.v")
+        changed |= set(n for n in files if n.startswith("X86Forms") or n in ("X86DbRows.v", "X86DbDecor.v"))
     if any(n.startswith("X86Forms") and n != "X86Forms.v" for n in changed):
         changed.add("X86Forms.v")
     reuse = []
@@ -815,6 +833,8 @@ def own_regen(ck, files, timeout=600):
     args = ["-Q", os.path.join(vlib.COQ, "theories"), "Verif", "-Q", wgen, "VerifGen", "-w", "-all"]
     ck.coq_make(["theories/X86Validate/ValidateProofs.vo", "theories/InstNames/NameProofs.vo"])
     todo = [n for n in files if n not in reuse]
+    if "X86Sigs.v" in changed and "X86DbDecor.v" in files and "X86DbDecor.v" not in todo:
+        todo.append("X86DbDecor.v")
     layers = [[n for n in todo if n in ("X86Names.v", "A64Names.v", "X86Sigs.v")],
               [n for n in todo if n not in ("X86Names.v", "A64Names.v", "X86Sigs.v", "X86Forms.v")],
               [n for n in todo if n == "X86Forms.v"]]
@@ -905,7 +925,7 @@ def run(ck):
                      {"broken": "coq/gen/" + n, "unsorted_letters_a64": c13_gen.a64_unsorted_letters(d)}, no_input=True)
     # a gen file whose reflection lemmas fail has no .vo, so Properties_C13.v as a whole cannot be compiled: attribute the failure to the
     # theorems that rest on that file (the others are listed in the evidence as not re-checkable in this run)
-    THEOREM_GEN = {  # (C13_emitter_history_irrelevant, C13_validate_pure, ... rest on no gen file)
+    THEOREM_GEN = {"X86DbDecor.v": ["C13_db_rows_decorated_representatives_validate"],  # (C13_emitter_history_irrelevant, C13_validate_pure, ... rest on no gen file)
                    "X86DbRows.v": ["C13_signature_rows_present", "C13_db_row_signature_stage", "C13_signature_records_have_db_origin",
                                    "C13_signature_kinds_have_db_origin", "C13_db_decorations_present", "C13_db_row_validates", "C13_db_row_validates_plain"],
                    "X86Forms.v": ["C13_db_forms_validate", "C13_db_excluded_forms_refused", "C13_validate_operand_count_refuted"],
